@@ -148,6 +148,10 @@ def gen(seed, index, tier):
         elif r < 0.55:
             o = {"op": "list", "dir": rng.choice(listable), "proto": rng.choice(PROTOS)}
             r2 = rng.random()
+            if 0.22 <= r2 < 0.30 and L > 0:
+                # before this request an admin changes the cache file's inode, not its contents (chmod -R, chown,
+                # a hard link): its change time is now, its modification time is not
+                o["inodechange"] = True
             if 0.16 <= r2 < 0.22 and L > 0:
                 # somebody removes the cache file while this request is being served (seen at the 2nd or 3rd
                 # look the request takes at it)
@@ -278,6 +282,11 @@ def execute(sc, tape=None):
                     sel = common.selector_of(op["dir"])
                     req, tls = proto.make_request(op["proto"], sel)
                     n0 = len(run.fs.open_sizes)
+                    if op.get("inodechange"):
+                        cf_ = os.path.join(root, op["dir"], cachefile)
+                        if os.path.exists(cf_):
+                            run.fs.inode_changed(cf_)
+                            counters["cache_inode_changed"] = counters.get("cache_inode_changed", 0) + 1
                     flt = None
                     if op.get("scanfault"):
                         flt = simfs.Fault("listdir", op["dir"], op["scanfault"], nth="all")
